@@ -19,6 +19,7 @@ pub mod c11;
 pub mod c12;
 pub mod c12_sched;
 pub mod c15;
+pub mod c15_sched;
 pub mod c16;
 pub mod c17;
 pub mod c18;
